@@ -447,11 +447,15 @@ def run_generic(case, ctx):
     sq = net.append(pym.EinSum([sb, se, sb], expression="i,ij,j->"))
     see = net.append(pym.EinSum([se, se], expression="ij,jk->ik"))
     sww = net.append(pym.EinSum([see, sW], expression="ij,ij->"))
+    # a 2-D source consumed through a slice that mixes a basic slice with an index list (numpy hands out a copy for it)
+    Wd0 = rng.uniform(-1, 1, (2, 2))
+    cols = [0, 2] if rng.random() < 0.5 else [2, 1]
+    ssl = net.append(pym.EinSum([sd[:, cols], pym.Signal("Wd", Wd0.copy())], expression="ij,ij->"))
     with warnings.catch_warnings():
         warnings.simplefilter("ignore")
         net.response()
-    w = rng.standard_normal(4)
-    which = [bool(rng.integers(0, 2)) for _ in range(4)]
+    w = rng.standard_normal(5)
+    which = [bool(rng.integers(0, 2)) for _ in range(5)]
     if not any(which):
         which[1] = True
     if which[0]:
@@ -462,6 +466,8 @@ def run_generic(case, ctx):
         sq.sensitivity = float(w[2])
     if which[3]:
         sww.sensitivity = float(w[3])
+    if which[4]:
+        ssl.sensitivity = float(w[4])
     net.sensitivity()
     ga, gb, gc, gd, ge = sa.sensitivity, sb.sensitivity, scs.sensitivity, sd.sensitivity, se.sensitivity
 
@@ -485,7 +491,8 @@ def run_generic(case, ctx):
             pn = np.sum(m ** p) ** (1 / p)
             sc_ = 10.0 * (pn / maxval - 1)
             return (w[0] * dot if which[0] else 0.0) + (w[1] * sc_ if which[1] else 0.0) + \
-                (w[2] * (b @ e @ b) if which[2] else 0.0) + (w[3] * np.sum(W0 * (e @ e)) if which[3] else 0.0)
+                (w[2] * (b @ e @ b) if which[2] else 0.0) + (w[3] * np.sum(W0 * (e @ e)) if which[3] else 0.0) + \
+                (w[4] * np.sum(Wd0 * d[:, cols]) if which[4] else 0.0)
         vd = rng.standard_normal((2, 3))
         ve = rng.standard_normal((n, n))
         ref = float(np.imag(Fcs(a0 + 1j * h * va, b0 + 1j * h * vb, c0 + 1j * h * vc, d0 + 1j * h * vd, e0 + 1j * h * ve)) / h)
